@@ -106,6 +106,9 @@ pub struct Field {
     /// the value held in the model; only used for declarations that are invalid by R4
     #[serde(default)]
     pub huge: Option<Huge>,
+    /// bit positions, stride and array length written with a leading zero (`010` is decimal 10 in Rust)
+    #[serde(default)]
+    pub zero_pad: bool,
 }
 
 #[derive(Clone, Debug, Serialize, Deserialize, PartialEq, Eq, Hash)]
@@ -122,6 +125,9 @@ pub struct DefaultDecl {
     pub named_const: bool,
     /// 10, 16, 2
     pub radix: u8,
+    /// name of the named constant (default: DEF_<STRUCT>)
+    #[serde(default)]
+    pub const_name: Option<String>,
 }
 
 #[derive(Clone, Copy, Debug, Serialize, Deserialize, PartialEq, Eq, Hash)]
